@@ -1,29 +1,25 @@
-PROP = {
-    "modules": ["Discv5Model.Props.C10", "Discv5Model.Props.C09Service"],
-    "lemma_modules": ["Discv5Model.Proofs.QueryLemmas", "Discv5Model.Proofs.LookupLemmas"],
-    "engines": [{"name": "query", "quick": 1000, "thorough": 50000}, {"name": "service", "quick": 80, "thorough": 4000}],
-    "rule": "query engine (cases shared with C09, see there): FindNodeQuery / PredicateQuery driven directly with "
-            "explicit time in a contract and an adversarial mode, plus QueryPool cases; into_result (and for "
-            "FindNodeQuery a peek at the result of a clone in mid-run) is compared with the model and checked against "
-            "the harness ledger (answered peers, reported predicate values, candidates certainly learned). "
-            "non-trivial = single-query case that reached Finished with >= 2 requests and a non-empty result, or pool "
-            "case that handed a non-empty result back",
-    "nontrivial": [("query", "q.nt.c10"), ("query", "q.nt.pool")],
-    "trusted_base": ["Instant arithmetic of std (explicit `now : Nat` in the model)",
-                     "BTreeMap of std (list kept strictly sorted by distance)"],
-    "assumptions": ["keys are naturals and distance is Nat.xor (256-bit keys in the code)",
-                    "the predicate closure is abstracted to the boolean it returns for each reported record",
-                    "'candidates it learned of' = the candidate map; the constructor keeps only the first num_results "
-                    "initial candidates (stated in result_predicate / requests_bounded)"],
-    "engine": "query",
-    "design_ref": "DESIGN.md section 5 / C10",
-    "technique": "Lean 4 invariants over all event histories of an executable model of FindNodeQuery / PredicateQuery "
-                 "(ledger refinement: emitted / answered / reported) + differential correspondence run with ledger "
-                 "monitors against the real state machines",
-    "level_text": "Proof: for every initial candidate list, configuration and history of calls the result is strictly "
-                  "increasing in XOR distance, has at most num_results entries, contains only peers that next handed "
-                  "out and for which on_success was called later, a predicate lookup returns only nodes reported with "
-                  "a matching record, and a finished query with a short result has no NotContacted candidate. The "
-                  "model is tied to /repo by a differential run on every check.",
-    "level_note": "Trusted: Lean kernel, harness/driver. The tie model<->code is a sampled differential check, not a proof.",
-}
+PROP = {'modules': ['Discv5Model.Props.C10', 'Discv5Model.Props.C09Service'],
+ 'lemma_modules': ['Discv5Model.Proofs.QueryLemmas', 'Discv5Model.Proofs.LookupLemmas'],
+ 'engines': [{'name': 'query', 'quick': 1000, 'thorough': 50000}, {'name': 'service', 'quick': 80, 'thorough': 4000}],
+ 'rule': 'query engine (cases shared with C09, see there): FindNodeQuery / PredicateQuery driven directly with explicit time in a contract and an adversarial '
+         'mode, plus QueryPool cases; into_result (and for FindNodeQuery a peek at the result of a clone in mid-run) is compared with the model and checked '
+         'against the harness ledger (answered peers, reported predicate values, candidates certainly learned). non-trivial = single-query case that reached '
+         'Finished with >= 2 requests and a non-empty result, or pool case that handed a non-empty result back',
+ 'nontrivial': [('query', 'q.nt.c10'), ('query', 'q.nt.pool')],
+ 'trusted_base': ['Instant arithmetic of std (explicit `now : Nat` in the model)', 'BTreeMap of std (list kept strictly sorted by distance)'],
+ 'assumptions': ['keys are naturals and distance is Nat.xor (256-bit keys in the code)',
+                 'the predicate closure is abstracted to the boolean it returns for each reported record',
+                 "'candidates it learned of' = the candidate map; the constructor keeps only the first num_results initial candidates (stated in "
+                 'result_predicate / requests_bounded)'],
+ 'engine': 'query',
+ 'design_ref': 'DESIGN.md section 5 / C10',
+ 'technique': 'Lean 4 invariants over all event histories of an executable model of FindNodeQuery / PredicateQuery (ledger refinement: emitted / answered / '
+              'reported) + differential correspondence run with ledger monitors against the real state machines + Lean 4 composition of the service model with '
+              'the query model, tied by the service engine (lookup results predicted and compared)',
+ 'level_text': 'Proof: for every initial candidate list, configuration and history of calls the result is strictly increasing in XOR distance, has at most '
+               'num_results entries, contains only peers that next handed out and for which on_success was called later, a predicate lookup returns only nodes '
+               'reported with a matching record, and a finished query with a short result has no NotContacted candidate. The model is tied to /repo by a '
+               'differential run on every check. Also (Props/C09Service.lean, Model/Lookup.lean): the lookups the service runs are histories of the query '
+               'model (so result soundness / order / completeness hold of them) and hand over at most the number of records asked for; the service driver '
+               'predicts the result of every lookup (which nodes, in which order) and it is compared with the implementation.',
+ 'level_note': 'Trusted: Lean kernel, harness/driver. The tie model<->code is a sampled differential check, not a proof.'}
